@@ -147,6 +147,19 @@ def oracle_ts_full(kind, text):
     return None, 0
 
 
+def near_miss(kind, dt, rng):
+    """ dt rendered for `kind` with ONE field pushed just out of range (seconds 60.., minutes
+    60..): looks like a timestamp of that very moment, is not one """
+    import re as _re
+    s = fmt_ts(kind, dt, rng)
+    bad = rng.choice(['60', '60', '61', '75', '99'])
+    fields = list(_re.finditer(r'[:h]\d\d', s))
+    if not fields:
+        return s
+    m = fields[-1] if rng.random() < 0.7 else fields[0]
+    return s[:m.start() + 1] + bad + s[m.end():]
+
+
 def fmt_ts(kind, dt, rng=None):
     """ Render dt in a form the matcher `kind` recognises. """
     if kind == 'ampm':
